@@ -1,11 +1,536 @@
-// Package c04 is the correspondence/oracle harness for property C04.
+// Package c04: object lookup returns the newest revision, in any access order.
 package c04
 
-import "verifharness/hx"
+import (
+	"fmt"
+	"os"
+	"path/filepath"
+	"sort"
+	"strings"
+
+	"github.com/tsawler/tabula/core"
+	"github.com/tsawler/tabula/reader"
+
+	"verifharness/hx"
+	"verifharness/writers"
+)
 
 func init() { hx.Register("C04", Run, Replay) }
 
-// Run is not built yet for this property.
-func Run(c *hx.Ctx) { c.Note("C04: harness not built") }
+// ---- logical history ---------------------------------------------------------------
 
-func Replay(c *hx.Ctx, kase map[string]interface{}) {}
+type action struct {
+	Kind       string `json:"kind"` // "put" | "del"
+	Dict       bool   `json:"dict,omitempty"`
+	Compressed bool   `json:"compressed,omitempty"`
+	ID         int    `json:"id,omitempty"`
+}
+
+type revision struct {
+	Actions    map[int]action `json:"actions"`
+	XrefStream bool           `json:"xref_stream"`
+	W          [3]int         `json:"w"`
+	Predictor  int            `json:"predictor"`
+	Flate      bool           `json:"flate"`
+	IndirectLn bool           `json:"indirect_len"` // object streams carry /Length by reference
+	BigPad     int            `json:"big_pad"`      // padding bytes inside object streams
+}
+
+type history struct {
+	N    int        `json:"n"`
+	Revs []revision `json:"revs"`
+	EOL  string     `json:"eol"`
+	// Fault: optional inconsistency injected into the physical file (no oracle then)
+	Fault string `json:"fault,omitempty"`
+}
+
+type kase struct {
+	Hist history  `json:"history"`
+	Ops  []string `json:"ops"`
+}
+
+// physical description sent to the model
+type physSec struct {
+	off     int64
+	prev    int64
+	entries []string // num.type.f1.f2 in Set order
+}
+
+type built struct {
+	data    []byte
+	secs    []physSec
+	objs    []string // off:num:val
+	start   int64
+	expect  map[int]string // oracle: object number -> expected token
+	maxNum  int
+	special map[int]bool // container numbers (objstm / xref stream / length holders)
+}
+
+func body(a action) string {
+	if a.Dict {
+		return fmt.Sprintf("<< /V %d >>", a.ID)
+	}
+	return fmt.Sprintf("%d", a.ID)
+}
+
+func tok(a action) string {
+	if a.Dict {
+		return fmt.Sprintf("d%d", a.ID)
+	}
+	return fmt.Sprintf("i%d", a.ID)
+}
+
+func build(h history) built {
+	p := writers.NewPDF(h.EOL)
+	b := built{expect: map[int]string{}, special: map[int]bool{}}
+	next := h.N + 1 // fresh object numbers for containers
+	prev := int64(-1)
+	gens := map[int]int{}
+	for ri, rev := range h.Revs {
+		entries := map[int]writers.XEntry{}
+		var order []string
+		set := func(n int, e writers.XEntry) { entries[n] = e }
+		if ri == 0 {
+			set(0, writers.XEntry{Type: 0, F1: 0, F2: 65535})
+		}
+		nums := make([]int, 0, len(rev.Actions))
+		for n := range rev.Actions {
+			nums = append(nums, n)
+		}
+		sort.Ints(nums)
+		var comp []int
+		for _, n := range nums {
+			a := rev.Actions[n]
+			switch {
+			case a.Kind == "del":
+				gens[n]++
+				set(n, writers.XEntry{Type: 0, F1: 0, F2: gens[n]})
+				b.expect[n] = "e"
+			case a.Compressed:
+				comp = append(comp, n)
+			default:
+				off := p.Obj(n, 0, body(a))
+				set(n, writers.XEntry{Type: 1, F1: off, F2: 0})
+				b.objs = append(b.objs, fmt.Sprintf("%d:%d:%s", off, n, tok(a)))
+				b.expect[n] = tok(a)
+			}
+		}
+		if len(comp) > 0 {
+			// one object stream per revision; member order reversed so index != rank
+			stm := next
+			next++
+			var ms []writers.ObjStmMember
+			var desc []string
+			for i := len(comp) - 1; i >= 0; i-- {
+				n := comp[i]
+				a := rev.Actions[n]
+				ms = append(ms, writers.ObjStmMember{Num: n, Body: body(a)})
+				k := 0
+				if a.Dict {
+					k = 1
+				}
+				desc = append(desc, fmt.Sprintf("%d.%d.%d", n, k, a.ID))
+				set(n, writers.XEntry{Type: 2, F1: int64(stm), F2: len(ms) - 1})
+				b.expect[n] = tok(a)
+			}
+			if rev.BigPad > 0 {
+				ms = append(ms, writers.ObjStmMember{Num: next + 50, Body: "(" + strings.Repeat("x", rev.BigPad) + ")"})
+				desc = append(desc, fmt.Sprintf("%d.%d.%d", next+50, 0, 0))
+			}
+			lenRef := 0
+			if rev.IndirectLn {
+				lenRef = next
+				next++
+			}
+			off := p.ObjStm(stm, ms, rev.Flate, lenRef)
+			set(stm, writers.XEntry{Type: 1, F1: off, F2: 0})
+			b.objs = append(b.objs, fmt.Sprintf("%d:%d:s%s", off, stm, strings.Join(desc, "+")))
+			b.expect[stm] = "S"
+			b.special[stm] = true
+			if lenRef > 0 {
+				// the length holder is written AFTER the stream (forces nested resolution
+				// while the stream's parser is suspended)
+				ln := p.LastStreamLen
+				loff := p.Obj(lenRef, 0, fmt.Sprintf("%d", ln))
+				set(lenRef, writers.XEntry{Type: 1, F1: loff, F2: 0})
+				b.objs = append(b.objs, fmt.Sprintf("%d:%d:i%d", loff, lenRef, ln))
+				b.expect[lenRef] = fmt.Sprintf("i%d", ln)
+				b.special[lenRef] = true
+			}
+		}
+		if ri == len(h.Revs)-1 {
+			applyFault(h.Fault, entries, comp)
+		}
+		var off int64
+		trailer := "/Root 1 0 R"
+		usePrev := prev
+		if ri == 0 && h.Fault == "prev-cycle" {
+			usePrev = 9999999999 // patched below to the newest section's offset
+		}
+		if ri == len(h.Revs)-1 && h.Fault == "prev-self" {
+			usePrev = 8888888888 // patched below to this section's own offset
+		}
+		if rev.XrefStream {
+			xn := next
+			next++
+			off = p.XrefStream(xn, entries, trailer, usePrev, rev.W, rev.Flate, rev.Predictor, next+60)
+			b.objs = append(b.objs, fmt.Sprintf("%d:%d:t", off, xn))
+			b.expect[xn] = "S"
+			b.special[xn] = true
+		} else {
+			off = p.XrefTable(entries, trailer+fmt.Sprintf(" /Size %d", next+60), usePrev, " \n")
+		}
+		keys := make([]int, 0, len(entries))
+		for n := range entries {
+			keys = append(keys, n)
+		}
+		sort.Ints(keys)
+		for _, n := range keys {
+			e := entries[n]
+			order = append(order, fmt.Sprintf("%d.%d.%d.%d", n, e.Type, e.F1, e.F2))
+		}
+		b.secs = append(b.secs, physSec{off: off, prev: usePrev, entries: order})
+		prev = off
+		b.start = off
+	}
+	b.maxNum = next
+	b.data = p.Buf.Bytes()
+	patch := func(placeholder int64, val int64) {
+		b.data = []byte(strings.Replace(string(b.data), fmt.Sprint(placeholder), fmt.Sprintf("%010d", val), 1))
+		for i := range b.secs {
+			if b.secs[i].prev == placeholder {
+				b.secs[i].prev = val
+			}
+		}
+	}
+	if h.Fault == "prev-cycle" {
+		patch(9999999999, b.start)
+	}
+	if h.Fault == "prev-self" {
+		patch(8888888888, b.start)
+	}
+	return b
+}
+
+// applyFault makes the newest cross-reference section inconsistent with the file in
+// one specific way; the physical description sent to the model reflects it.
+func applyFault(fault string, entries map[int]writers.XEntry, comp []int) {
+	var plain, all []int
+	for n, e := range entries {
+		if n == 0 {
+			continue
+		}
+		all = append(all, n)
+		if e.Type == 1 {
+			plain = append(plain, n)
+		}
+	}
+	sort.Ints(plain)
+	sort.Ints(all)
+	switch fault {
+	case "wrong-header":
+		if len(plain) >= 2 {
+			e := entries[plain[0]]
+			e.F1 = entries[plain[1]].F1
+			entries[plain[0]] = e
+		}
+	case "idx-out-of-range":
+		if len(comp) > 0 {
+			e := entries[comp[0]]
+			e.F2 += 40
+			entries[comp[0]] = e
+		}
+	case "idx-swapped":
+		if len(comp) >= 2 {
+			a, b := entries[comp[0]], entries[comp[1]]
+			a.F2, b.F2 = b.F2, a.F2
+			entries[comp[0]], entries[comp[1]] = a, b
+		}
+	case "stm-not-objstm":
+		if len(comp) > 0 && len(plain) > 0 {
+			e := entries[comp[0]]
+			e.F1 = int64(plain[0])
+			entries[comp[0]] = e
+		}
+	case "stm-in-stm":
+		if len(comp) >= 2 {
+			e := entries[comp[0]]
+			e.F1 = int64(comp[1])
+			entries[comp[0]] = e
+		}
+	case "stm-missing":
+		if len(comp) > 0 {
+			e := entries[comp[0]]
+			e.F1 = 4000
+			entries[comp[0]] = e
+		}
+	case "offset-garbage":
+		if len(plain) > 0 {
+			e := entries[plain[0]]
+			e.F1 += 3
+			entries[plain[0]] = e
+		}
+	}
+}
+
+func (b built) opLine(ops []string) string {
+	var secs []string
+	for _, s := range b.secs {
+		prev := "-"
+		if s.prev >= 0 {
+			prev = fmt.Sprint(s.prev)
+		}
+		secs = append(secs, fmt.Sprintf("%d/%s/%s", s.off, prev, strings.Join(s.entries, ",")))
+	}
+	return fmt.Sprintf("c04.run S=%d X=%s O=%s P=%s", b.start, strings.Join(secs, "|"), strings.Join(b.objs, ";"), strings.Join(ops, ","))
+}
+
+func classify(obj core.Object, err error) string {
+	if err != nil {
+		return "e"
+	}
+	switch v := obj.(type) {
+	case core.Int:
+		return fmt.Sprintf("i%d", int(v))
+	case core.Dict:
+		if id, ok := v.Get("V").(core.Int); ok {
+			return fmt.Sprintf("d%d", int(id))
+		}
+		return "o"
+	case *core.Stream:
+		return "S"
+	}
+	return "o"
+}
+
+func dumpXref(t *core.XRefTable) string {
+	nums := make([]int, 0, len(t.Entries))
+	for n := range t.Entries {
+		nums = append(nums, n)
+	}
+	sort.Ints(nums)
+	var out []string
+	for _, n := range nums {
+		e := t.Entries[n]
+		switch e.Type {
+		case core.XRefEntryFree:
+			out = append(out, fmt.Sprintf("%d:0:%d", n, e.Offset))
+		case core.XRefEntryUncompressed:
+			out = append(out, fmt.Sprintf("%d:1:%d", n, e.Offset))
+		case core.XRefEntryCompressed:
+			out = append(out, fmt.Sprintf("%d:2:%d:%d", n, e.Offset, e.Generation))
+		}
+	}
+	return strings.Join(out, ",")
+}
+
+// runCase writes the file, runs the lookup sequence on the implementation,
+// emits the correspondence op and evaluates the statement-level oracle.
+func runCase(c *hx.Ctx, k kase, tag string) {
+	b := build(k.Hist)
+	path := filepath.Join(c.OutDir, "c04-"+tag+".pdf")
+	os.WriteFile(path, b.data, 0o644)
+	defer os.Remove(path)
+	var res, errs []string
+	var xref string
+	opened := false
+	openErr := ""
+	if !c.Guard("C04", k, 10, func() {
+		rd, err := reader.Open(path)
+		if err != nil {
+			openErr = err.Error()
+			return
+		}
+		opened = true
+		defer rd.Close()
+		xref = dumpXref(rd.XRefTable())
+		for _, op := range k.Ops {
+			if op == "c" {
+				rd.ClearCache()
+				continue
+			}
+			var n int
+			fmt.Sscanf(op, "g%d", &n)
+			obj, err := rd.GetObject(n)
+			res = append(res, classify(obj, err))
+			if err != nil {
+				errs = append(errs, err.Error())
+			} else {
+				errs = append(errs, "")
+			}
+		}
+	}) {
+		return
+	}
+	if !opened && k.Hist.Fault != "" {
+		c.Case(fmt.Sprint(k), false)
+		c.Count("fault-open-error")
+		return
+	}
+	if !c.Check("C04/open", opened, k, func() string { return "reader.Open failed on a well-formed revision history: " + openErr }) {
+		return
+	}
+	c.Op(b.opLine(k.Ops), fmt.Sprintf("xref=[%s] res=[%s]", xref, strings.Join(res, ",")))
+	nontrivial := false
+	if k.Hist.Fault == "" {
+		i := 0
+		for _, op := range k.Ops {
+			if op == "c" {
+				continue
+			}
+			var n int
+			fmt.Sscanf(op, "g%d", &n)
+			want, ok := b.expect[n]
+			if !ok {
+				want = "e"
+			}
+			got := res[i]
+			i++
+			if want != "e" {
+				nontrivial = true
+			}
+			key := "C04/newest-revision"
+			if want == "e" {
+				key = "C04/free-or-missing-must-error"
+			}
+			c.Check(key, got == want, k, func() string {
+				return fmt.Sprintf("lookup #%d of object %d = %s, newest revision says %s (ops %v) err=%q", i, n, got, want, k.Ops, errs[i-1])
+			})
+		}
+	}
+	c.Case(fmt.Sprint(k), nontrivial)
+}
+
+func genOps(r *hx.Rng, maxNum int) []string {
+	n := r.Range(3, 14)
+	var ops []string
+	for i := 0; i < n; i++ {
+		switch {
+		case r.Chance(1, 8):
+			ops = append(ops, "c")
+		case len(ops) > 0 && r.Chance(1, 4):
+			ops = append(ops, hx.Pick(r, ops)) // repeat an earlier op
+		default:
+			ops = append(ops, fmt.Sprintf("g%d", r.Intn(maxNum+3)))
+		}
+	}
+	return ops
+}
+
+func genHistory(r *hx.Rng) history {
+	h := history{N: r.Range(1, 12), EOL: hx.Pick(r, []string{"\n", "\n", "\r\n"})}
+	nrev := r.Range(1, 6)
+	id := 100
+	for ri := 0; ri < nrev; ri++ {
+		rev := revision{Actions: map[int]action{}, W: hx.Pick(r, [][3]int{{1, 3, 2}, {1, 4, 2}, {1, 2, 1}, {2, 8, 3}, {1, 3, 0}})}
+		rev.XrefStream = r.Chance(2, 5)
+		rev.Flate = r.Bool()
+		rev.Predictor = hx.Pick(r, []int{0, 0, 12, 10, 11, 13, 14, 15})
+		rev.IndirectLn = r.Chance(1, 4)
+		if r.Chance(1, 10) {
+			rev.BigPad = r.Range(5000, 12000)
+		}
+		for n := 1; n <= h.N; n++ {
+			p := 3
+			if ri == 0 {
+				p = 8
+			}
+			if !r.Chance(p, 10) {
+				continue
+			}
+			if ri > 0 && r.Chance(1, 4) {
+				rev.Actions[n] = action{Kind: "del"}
+				continue
+			}
+			id++
+			a := action{Kind: "put", ID: id, Dict: r.Chance(1, 3)}
+			if r.Chance(1, 3) {
+				a.Compressed = true
+				rev.XrefStream = true
+			}
+			rev.Actions[n] = a
+		}
+		if rev.W[2] == 0 {
+			// generation / index must fit in width 0: only usable without deletions/compressed
+			for _, a := range rev.Actions {
+				if a.Kind == "del" || a.Compressed {
+					rev.W = [3]int{1, 3, 2}
+				}
+			}
+			if ri == 0 {
+				rev.W = [3]int{1, 3, 2} // entry 0 has generation 65535
+			}
+		}
+		if rev.W[1] == 2 && rev.BigPad > 0 {
+			rev.W = [3]int{1, 4, 2}
+		}
+		h.Revs = append(h.Revs, rev)
+	}
+	return h
+}
+
+// exhaustive enumerates all histories over n objects and r revisions where every
+// object in every revision is one of {untouched, put plain, put compressed, deleted}.
+func exhaustive(c *hx.Ctx, n, r int) {
+	states := 1
+	for i := 0; i < n*r; i++ {
+		states *= 4
+	}
+	opsets := [][]string{{"g1", "g2", "g1"}, {"g2", "g1", "c", "g2"}, {"g3", "g2", "g1", "g3"}, {"g0", "g1", "g4", "g1"}}
+	for code := 0; code < states; code++ {
+		for xk := 0; xk < 2; xk++ {
+			h := history{N: n, EOL: "\n"}
+			v := code
+			id := 10
+			for ri := 0; ri < r; ri++ {
+				rev := revision{Actions: map[int]action{}, W: [3]int{1, 3, 2}, XrefStream: xk == 1, Flate: ri%2 == 0}
+				for o := 1; o <= n; o++ {
+					st := v % 4
+					v /= 4
+					id++
+					switch st {
+					case 1:
+						rev.Actions[o] = action{Kind: "put", ID: id}
+					case 2:
+						rev.Actions[o] = action{Kind: "put", ID: id, Compressed: true}
+						rev.XrefStream = true
+					case 3:
+						rev.Actions[o] = action{Kind: "del"}
+					}
+				}
+				h.Revs = append(h.Revs, rev)
+			}
+			runCase(c, kase{Hist: h, Ops: opsets[(code+xk)%len(opsets)]}, "x")
+			c.Count(fmt.Sprintf("exhaustive-n%d-r%d", n, r))
+		}
+	}
+}
+
+func Run(c *hx.Ctx) {
+	c.Rep.Rule = "revision histories (add/replace/delete per object per revision; classic or stream xref per revision; object-stream membership; indirect /Length; W widths; predictors) rendered by the harness PDF writer, then lookup sequences with repeats and ClearCache; exhaustive for n=2 objects x r<=2 (thorough: r<=3) revisions x both xref kinds; non-trivial = at least one lookup expected to succeed; distinct by (history, ops)"
+	exhaustive(c, 2, 1)
+	exhaustive(c, 2, 2)
+	if c.Thorough() {
+		exhaustive(c, 2, 3)
+		exhaustive(c, 3, 2)
+	}
+	n := c.N(600, 12000)
+	for i := 0; i < n; i++ {
+		r := c.Rng.Fork(uint64(i))
+		h := genHistory(r)
+		if r.Chance(1, 5) {
+			h.Fault = hx.Pick(r, []string{"prev-cycle", "prev-self", "wrong-header", "idx-out-of-range", "idx-swapped", "stm-not-objstm", "stm-in-stm", "stm-missing"})
+			c.Count("fault=" + h.Fault)
+		}
+		b := build(h)
+		k := kase{Hist: h, Ops: genOps(r, b.maxNum)}
+		runCase(c, k, "r")
+		c.Count(fmt.Sprintf("revisions=%d", len(h.Revs)))
+	}
+}
+
+func Replay(c *hx.Ctx, m map[string]interface{}) {
+	var k kase
+	hx.Remarshal(m, &k)
+	runCase(c, k, "replay")
+}
